@@ -1,6 +1,7 @@
 package main
 
 import (
+	"bytes"
 	"fmt"
 	"go/ast"
 	"go/parser"
@@ -35,7 +36,7 @@ type genPkg struct {
 	pkg     *packages.Package
 	cf      *ContractFile
 	imports map[string]string // path -> name
-	buf     strings.Builder
+	buf     bytes.Buffer
 	n       int
 }
 
@@ -699,22 +700,34 @@ func generate(pkg *packages.Package, cf *ContractFile) (string, map[string]*Func
 		ci.GoName = g.fresh("chaninv")
 		fmt.Fprintf(&g.buf, "func %s%s(%s %s) bool { return %s }\n", ci.GoName, ci.TParams, ci.Param, ci.Elem, rewriteExpr(ci.Expr))
 	}
+	var okFuncs []*FuncContract
 	for _, fc := range cf.Funcs {
+		// A contract that no longer matches the tree (function renamed, call site or loop of
+		// an anchor gone) is dropped and recorded: the obligations it used to generate are then
+		// missing, which `check` reports for exactly the properties that had locked them.
+		mark := g.buf.Len()
 		fi, err := findFunc(pkg, fc)
-		if err != nil {
-			return "", nil, fmt.Errorf("%s:%d: %v", cf.Path, fc.Line, err)
+		if err == nil {
+			err = g.genFunc(fi, specNames)
 		}
+		if err != nil {
+			g.buf.Truncate(mark)
+			if cf.Broken == nil {
+				cf.Broken = map[string]string{}
+			}
+			cf.Broken[fc.Key()] = err.Error()
+			continue
+		}
+		okFuncs = append(okFuncs, fc)
 		key := fc.Key()
 		if fi.Lit != nil {
 			key = fc.Pkg + ":" + strings.TrimSpace(strings.SplitN(strings.TrimPrefix(fc.Header, "func"), "(", 2)[0])
 			// recompute precise key with $ suffixes
 			key = fc.Pkg + ":" + litKey(fc)
 		}
-		if err := g.genFunc(fi, specNames); err != nil {
-			return "", nil, err
-		}
 		infos[key] = fi
 	}
+	cf.Funcs = okFuncs
 	var hdr strings.Builder
 	fmt.Fprintf(&hdr, "package %s\n\nimport (\n", pkg.Types.Name())
 	seen := map[string]bool{"time": true}
